@@ -261,6 +261,9 @@ def gen_cases(prop, seed, n_types, per):
                 d = malform(rnd, d, pool=MALFORMED + (SUBCLASSED if rnd.random() < 0.3 else []))
             o = {"ap": rnd.random() < 0.3, "fbod": rnd.random() < 0.2, "nc": rnd.random() < 0.5, "octor": False,
                  "coerce": coerce, "repaired": True}
+            if prop == "C08" and t.kind == "typeddict" and isinstance(d, dict) and rnd.random() < 0.5:
+                # additional keys of a TypedDict holding containers: returned, and copied unless no_copy
+                o["ap"] = True; d = dict(d); d[rnd.choice(["zz_extra", "other_extra"])] = rnd.choice([[1, [2]], {"k": [1]}, [], {}])
             base = {"int": "int", "cint": "int", "float": "float", "cfloat": "float", "str": "str", "cstr": "str"}.get(t.kind)
             if base and prop in ("C01", "C02", "C06") and rnd.random() < 0.3:
                 # per-call `schema=` argument: a second constraint set merged with the type's own
